@@ -1,5 +1,5 @@
 //@file src/encode/pattern/parser.rs
-//@harness c11_integer_digits unwind=24 strength=bounded bound="every decimal digit string of length <= 21 (covers 2^64 = 20 digits) followed by '}' or end of input" timeout=1500 body=body
+//@harness c11_integer_digits unwind=24 strength=bounded bound="every decimal digit string of length <= 21 (covers 2^64 = 20 digits) followed by '}' or end of input" timeout=3000 body=body
 // Parser::integer: "absurd widths" must not panic. Contract: no arithmetic overflow for any digit string; the value
 // returned is the value of the digits consumed; digits are consumed only while the value fits in usize.
 #[cfg(any(kani, verif_replay))]
